@@ -245,6 +245,8 @@ def contains(sx, container, item, st, node):
                 return [(st, z3.BoolVal(False), None)]
         return [(st, z3.Select(container.term, item.term), None)]
     if isinstance(t, V.Dict):
+        if isinstance(item.ty, V.Opt) and item.ty.inner == t.k:
+            return [(st, z3.And(z3.Not(item.ty.is_none(item.term)), z3.Select(t.dom(container.term), item.ty.get(item.term))), None)]
         if item.ty != t.k:
             return [(st, z3.BoolVal(False), None)]
         return [(st, z3.Select(t.dom(container.term), item.term), None)]
@@ -496,6 +498,15 @@ def index(sx, c, k, st, node):
             outs.append(R(st, Val(V.Str, ch)))
         return outs
     if isinstance(t, V.Dict):
+        if isinstance(k.ty, V.Opt) and k.ty.inner == t.k:
+            # None is never a key of this dict
+            outs0 = []
+            isn = k.ty.is_none(k.term)
+            if not sx.spec_mode and sx.feasible(st, isn):
+                outs0.append(R(st.fork().assume(isn), None, Exc("KeyError")))
+            if not sx.spec_mode:
+                st.assume(z3.Not(isn))
+            return outs0 + index(sx, c, Val(t.k, k.ty.get(k.term)), st, node)
         if k.ty != t.k:
             k = sx.coerce(k, t.k, st)
         has = z3.simplify(z3.Select(t.dom(c.term), k.term))
@@ -608,7 +619,7 @@ def setitem(sx, c, k, val, st, node):
         t = content.ty
         if isinstance(t, V.Dict):
             val = sx.coerce(val, t.v, st)
-            st.setcell(c.cell, Val(t, t.mk(z3.Store(t.dom(content.term), k.term, True), z3.Store(t.map(content.term), k.term, val.term))))
+            st.setcell(c.cell, Val(t, t.put(content.term, k.term, val.term)))
             return [(st, None)]
         if isinstance(t, V.List):
             n = t.n(content.term)
@@ -639,13 +650,20 @@ def delitem(sx, c, k, st, node):
                 return m
         elif isinstance(content, Val) and isinstance(content.ty, V.Dict):
             t = content.ty
+            if isinstance(k, Val) and isinstance(k.ty, V.Opt) and k.ty.inner == t.k:
+                isn = k.ty.is_none(k.term)
+                pre = []
+                if sx.feasible(st, isn):
+                    pre.append((st.fork().assume(isn), Exc("KeyError")))
+                st.assume(z3.Not(isn))
+                return pre + delitem(sx, c, Val(t.k, k.ty.get(k.term)), st, node)
             k = sx.coerce(k, t.k, st)
             has = z3.Select(t.dom(content.term), k.term)
             outs = []
             if sx.feasible(st, z3.Not(has)):
                 outs.append((st.fork().assume(z3.Not(has)), Exc("KeyError")))
             st.assume(has)
-            st.setcell(c.cell, Val(t, t.mk(z3.Store(t.dom(content.term), k.term, False), t.map(content.term))))
+            st.setcell(c.cell, Val(t, t.remove(content.term, k.term)))
             outs.append((st, None))
             return outs
     raise Unsupported("del item on %r" % (c,), node)
